@@ -802,12 +802,30 @@ def _fresh_byte_ref(I, st):
     return Ref(key, 0, ())
 
 
+def byte_at(I, st, ln):
+    """the byte of a slice that has `ln` bytes left (position counted from the fixed end): one atom per position, so repeated
+    reads at the same position agree; exclusions promised by a scanner contract for that position are applied when the atom is made"""
+    from .absint import Frame
+    fk = pfreeze(st.norm(ln.p))
+    key = ('bytepos', fk)
+    a = st.atoms.get(('byteat', fk))
+    if a not in st.bounds and a not in st.subst:
+        st._jset('bounds', a, (0, 255))
+        for v in (st.ghost.get('byte_excl') or {}).get(fk, ()):
+            st.assume(padd(patom(a), pconst(v), -1), NONZERO)
+    b = Int('u8', 0, 255, patom(a))
+    st.pframes[key] = Frame(None, None, {0: b})
+    return Ref(key, 0, ())
+
+
 @model(r'core::slice::<impl \[T\]>::(first|last)')
 def m_slice_first(I, st, fr, args, path, gargs, t):
     ln = _slice(I, st, args[0]).len
     idx = st.decide(ln.p, [ZERO, POS | NEG])
     if idx == 0:
         return none()
+    if getattr(I.opts, 'byte_positions', False) and path.endswith('first'):
+        return some(byte_at(I, st, ln))
     return some(_fresh_byte_ref(I, st))
 
 
